@@ -18,6 +18,7 @@ from spacepackets.cfdp.pdu.file_data import FileDataPdu
 from spacepackets.cfdp.pdu.nak import NakPdu
 from spacepackets.cfdp.pdu.prompt import PromptPdu
 from spacepackets.cfdp.pdu.header import AbstractPduBase
+from spacepackets.exceptions import BytesTooShortError
 from spacepackets.version import get_version
 
 GenericPduPacket = Union[AbstractFileDirectiveBase, AbstractPduBase]
@@ -164,6 +165,8 @@ class PduFactory:
 
     @staticmethod
     def pdu_type(data: bytes) -> PduType:
+        if len(data) < 1:
+            raise BytesTooShortError(1, 0)
         return PduType((data[0] >> 4) & 0x01)
 
     @staticmethod
@@ -182,4 +185,6 @@ class PduFactory:
             return None
         else:
             header_len = AbstractPduBase.header_len_from_raw(data)
+            if header_len >= len(data):
+                raise BytesTooShortError(header_len + 1, len(data))
             return DirectiveType(data[header_len])
